@@ -1404,10 +1404,27 @@ def tag_spec(repo, run, rule, tags):
             probs.append('parse_scalars=%r, expected %r (%s)' % (e.parse_scalars, want_parse, 'the text must reach the node verbatim' if not want_parse else 'scalars keep their YAML type'))
         if e.dict_is_data is not want_dict:
             probs.append('dict_is_data=%r, expected %r' % (e.dict_is_data, want_dict))
+        if tag == '!path' and e.kwargs != {'ref_point': None}:
+            probs.append('the plain !path tag does not construct the node with the implicit reference point (kwargs %s)' % (e.kwargs,))
         if probs:
             run.violation(rule, e.fi, '%s -> %s' % (tag, unparse_(e.make)), '; '.join(probs), node=e.make)
         else:
             run.ok(rule, (e.fi.file, e.make.lineno, e.fi.qualname), '%s -> %s' % (tag, want_cls or e.node_type), 'documented node class and data handling')
+        md = table.get(tag + ':') if not tag.endswith(':') and (tag + ':') not in TAG_SPEC else None
+        if md is not None and md.make is not None:
+            # the form carrying encoded metadata (!tag:<hex>): same node, same data handling, and the decoded metadata are the arguments
+            probs = []
+            mt_ = md.node_type or ''
+            if want_cls is not None and not (mt_ == want_cls or mt_.endswith('.' + want_cls)):
+                probs.append('builds %s, expected %s' % (md.node_type or 'a plain (deduced) node', want_cls))
+            if md.parse_scalars is not want_parse or md.dict_is_data is not want_dict or (want_arg is not None and md.data_arg_name != want_arg):
+                probs.append('data handling differs from the plain tag (data_arg_name=%r parse_scalars=%r dict_is_data=%r)' % (md.data_arg_name, md.parse_scalars, md.dict_is_data))
+            if not any('_decode_metadata(' in x for x in (md.kwargs_dynamic or [])):
+                probs.append('the metadata decoded from the tag suffix are not passed to the node')
+            if probs:
+                run.violation(rule, md.fi, '%s: -> %s' % (tag, unparse_(md.make)), '; '.join(probs), node=md.make)
+            else:
+                run.ok(rule, (md.fi.file, md.make.lineno, md.fi.qualname), '%s:<metadata> -> %s with the decoded metadata' % (tag, want_cls or md.node_type))
     for helper, target, kw, obj in (('add_constructor', 'yaml.add_constructor', 'Loader', 'AwesomeyamlLoader'), ('add_multi_constructor', 'yaml.add_multi_constructor', 'Loader', 'AwesomeyamlLoader'),
                                     ('add_representer', 'yaml.add_representer', 'Dumper', 'AwesomeyamlDumper'), ('add_multi_representer', 'yaml.add_multi_representer', 'Dumper', 'AwesomeyamlDumper')):
         q = 'yaml.' + helper
@@ -1545,3 +1562,70 @@ def metadata_syntax_table(repo, run, rule):
         run.violation(rule, fi, '{{...}} metadata syntax', '; '.join(bad[:2]))
     else:
         run.ok(rule, fi, '_encode_all_metadata evaluated on %d texts' % len(cases), 'each !tag{{mapping}} rewritten to !tag:<encoded>; everything else untouched; unterminated block rejected')
+
+
+def version_test_table(repo, run, rule):
+    """utils.python_is_at_least evaluated against interpreter versions around the thresholds the bytecode patcher uses"""
+    fi = repo.func('utils.python_is_at_least')
+    bad = []
+    for ver in ((3, 7, 9), (3, 10, 0), (3, 11, 4), (3, 12, 1), (4, 0, 0), (2, 7, 18)):
+        for major, minor in ((3, 8), (3, 10), (3, 11), (3, 12), (3, 13)):
+            ev = _fde(repo)
+            ev.values['sys.version_info'] = ver
+            try:
+                r = ev.call(fi, major, minor)
+            except Unsupported as e:
+                raise AnalysisError('python_is_at_least: finite-domain evaluator refused: %s' % e)
+            want = ver[:2] >= (major, minor)
+            if r.raised or bool(r.ret) is not want:
+                bad.append('on Python %d.%d, python_is_at_least(%d, %d) gives %s, expected %s' % (ver[0], ver[1], major, minor, r.raised or r.ret, want))
+    if bad:
+        run.violation(rule, fi, 'utils.python_is_at_least', '; '.join(bad[:3]) + ' (the bytecode patcher picks operand encodings and code-object layouts with it)')
+    else:
+        run.ok(rule, fi, 'python_is_at_least evaluated on 6 interpreter versions x 5 thresholds')
+
+
+def path_tag_table(repo, run, rule):
+    """the tag a !path node is written with carries its reference point (none for the implicit one)"""
+    fi = repo.classes['PathNode'].ayns.get('tag')
+    if fi is None:
+        raise AnalysisError('PathNode.ayns.tag not found')
+    bad = []
+    for ref, want in (('', '!path'), ('file', '!path:file'), ('parent(2)', '!path:parent(2)'), ('abs(/x)', '!path:abs(/x)')):
+        ev = _fde(repo)
+        try:
+            r = ev.call(fi, Obj('p', 'PathNode', ref_point=ref))
+        except Unsupported as e:
+            raise AnalysisError('PathNode.ayns.tag: finite-domain evaluator refused: %s' % e)
+        if r.raised or r.ret != want:
+            bad.append('reference point %r is written as %r, expected %r' % (ref, r.raised or r.ret, want))
+    if bad:
+        run.violation(rule, fi, 'PathNode tag', '; '.join(bad))
+    else:
+        run.ok(rule, fi, 'PathNode tag for 4 reference points')
+
+
+def namespace_reuse_guard(repo, run, rule):
+    """EvalNode.on_evaluate_impl: the globals of a node are taken from sys.modules only when the node is persistent and its module
+    is there; otherwise a fresh namespace is built"""
+    fi = repo.func('EvalNode.ayns.on_evaluate_impl')
+    n = 0
+    bad = set()
+    for p in tr.paths_of(repo, fi, no_inline={'_require_safe', '_patch_access_to_globals', 'evaluate_node', 'get_eval_symbols'}, follow_exceptions=False):
+        for e in p.events:
+            if e.kind == 'call' and e.callee in ('exec', 'eval') and len(e.args) >= 2:
+                G = e.args[1].text
+                reused = G.startswith('sys.modules[')
+                pers = [pol for t, pol in e.facts if t.endswith('.persistent_namespace')]
+                present = [pol for t, pol in e.facts if ' in sys.modules' in t]
+                n += 1
+                if reused and not (pers and pers[0] and present and present[0]):
+                    bad.add('the namespace is taken from sys.modules on a path where the node is not known to be persistent with its module present (facts: %s)' % [t for t, _ in e.facts][:3])
+                if not reused and pers and pers[0] and present and present[0]:
+                    bad.add('a persistent node whose module exists gets a fresh namespace: what earlier lines defined is lost')
+    if not n:
+        raise AnalysisError('EvalNode.on_evaluate_impl: exec / eval not found')
+    if bad:
+        run.violation(rule, fi, 'reuse of a published namespace', '; '.join(sorted(bad)))
+    else:
+        run.ok(rule, fi, 'published namespace reused iff persistent_namespace and the module is in sys.modules (%d run sites)' % n)
